@@ -2,9 +2,11 @@ package checks
 
 import (
 	"fmt"
+	"github.com/goplus/xgo/token"
 	goparser "go/parser"
 	gotoken "go/token"
 	"os"
+	"reflect"
 	"sort"
 	"strings"
 
@@ -148,6 +150,13 @@ func (sc *spanChecker) check(n oracle.Node, parent oracle.Node) {
 			}
 			if !sc.ends[hi] {
 				sc.fail("R2:"+k, fmt.Sprintf("%s.End()=%d is not the end of a token; span text %q, context %q", k, hi, sc.text(n), ctx(sc.src, hi)))
+			}
+			// R6: the positions a node records for its own tokens (Lparen, Ellipsis, TokPos, Arrow …) lie inside its span
+			for _, pf := range posFields(n) {
+				off := int(pf.pos) - sc.base
+				if off < lo || off > hi || off == hi && !c17EndMarker[pf.name] {
+					sc.fail("R6:"+k+"."+pf.name, fmt.Sprintf("%s.%s=%d lies outside the node's span [%d,%d) %q, context %q", k, pf.name, off, lo, hi, sc.text(n), ctx(sc.src, off)))
+				}
 			}
 		}
 	}
@@ -358,3 +367,34 @@ func (p *c17) Finish(cover map[string]int, extra map[string]any) {
 	sort.Strings(ex)
 	extra["exempt_inherited_from_go_ast"] = ex
 }
+
+type posField struct {
+	name string
+	pos  token.Pos
+}
+
+var posType = reflect.TypeOf(token.NoPos)
+
+// posFields returns the valid token.Pos fields of a node (exported fields of the node struct itself).
+func posFields(n oracle.Node) []posField {
+	v := reflect.ValueOf(n)
+	if v.Kind() != reflect.Ptr || v.IsNil() || v.Elem().Kind() != reflect.Struct {
+		return nil
+	}
+	v = v.Elem()
+	var out []posField
+	for i := 0; i < v.NumField(); i++ {
+		f := v.Type().Field(i)
+		if f.Type != posType || !f.IsExported() {
+			continue
+		}
+		if p := token.Pos(v.Field(i).Int()); p.IsValid() {
+			out = append(out, posField{f.Name, p})
+		}
+	}
+	return out
+}
+
+// c17EndMarker names the position fields that record where a node ends (they may equal End()); all others record
+// the start of one of the node's own tokens.
+var c17EndMarker = map[string]bool{"Last": true, "NoParenEnd": true}
